@@ -131,6 +131,15 @@ def step (_ : Unit) (line : String) : Unit × String :=
       let (s, rc) := syncCrEod s0 pv pe pr py now
       ((), s!"{rc} {sockStr s} {s.version} {s.lastUpdate}")
     | _, _, _, _, _, _, _, _, _, _ => bad
+  | ["eodm", mode, mode2, sv, pv, r, e, y, pr, py, pe, now] =>
+    -- the application sets the interval mode between the Cache Response and the End of Data: the mode in effect when the
+    -- End of Data is processed decides
+    match int32? mode, int32? mode2, ver? sv, ver? pv, u32? r, u32? e, u32? y, u32? pr, u32? py, u32? pe, time? now with
+    | some mode, some mode2, some sv, some pv, some r, some e, some y, some pr, some py, some pe, some now =>
+      let s0 : Sock := setIntervalMode { refresh := r, expire := e, retry := y, ivMode := mode, version := sv } mode2
+      let (s, rc) := syncCrEod s0 pv pe pr py now
+      ((), s!"{rc} {sockStr s} {s.version} {s.lastUpdate}")
+    | _, _, _, _, _, _, _, _, _, _, _ => bad
   | ["setmode", cur, o] => match int32? cur, int32? o with
     | some cur, some o =>
       ((), s!"{(setIntervalMode { refresh := 3600, expire := 7200, retry := 600, ivMode := cur } o).ivMode}")
